@@ -182,7 +182,7 @@ func (r *Run) Finish() int {
 func brief(c Coverage) string {
 	m := map[string]any{}
 	for k, v := range c {
-		if k == "samples" || k == "rule" || k == "explanation" {
+		if k == "samples" || k == "rule" || k == "explanation" || k == "per_scenario" || k == "per_config" {
 			continue
 		}
 		m[k] = v
